@@ -38,6 +38,17 @@ def dyn_circuit(rng, max_nodes=6, lossy=0.0, sources=('dc_voltage_source', 'dc_c
     return None
 
 
+def swept(rng, cd):
+    """the same circuit (ids, topology, listing) with other element values: what a parameter sweep analyses next in the same process"""
+    import copy
+    c2 = copy.deepcopy(cd)
+    for c in c2['components']:
+        for k in ('R', 'G', 'C', 'L'):
+            if k in c['args'] and c['ctor'] in ('resistor', 'conductance', 'capacitor', 'inductance'):
+                c['args'][k] = c['args'][k] * rng.choice([0.02, 0.05, 0.3, 3.0, 20.0, 50.0])
+    return c2
+
+
 def generate(tier, seed, shard, nshards):
     rng = random.Random(f'C10/{seed}/{shard}')
     for _ in range(N_CIRC[tier] // nshards):
@@ -45,6 +56,8 @@ def generate(tier, seed, shard, nshards):
         if cd is None:
             continue
         yield {'circuit': cd, 'wsel': rng.random()}
+        if rng.random() < 0.35:
+            yield {'circuit': swept(rng, cd), 'wsel': rng.random(), 'sweep_of_previous': True}
 
 
 def build_models(cd):
@@ -92,6 +105,8 @@ def judge(case, ctx, prefix='C10'):
     comps = [c for c in cd['components'] if c['ctor'] != 'ground']
     srcs_expected = sorted(c['id'] for c in comps if c['ctor'].endswith('source'))
     ctx.count('models_built')
+    if case.get('sweep_of_previous'):
+        ctx.count('models_value_sweep')
     ctx.count('models_' + okey)
     n_c = sum(1 for c in comps if c['ctor'] == 'capacitor')
     n_l = sum(1 for c in comps if c['ctor'] == 'inductance')
@@ -107,6 +122,15 @@ def judge(case, ctx, prefix='C10'):
         return
     # state identity: capacitor voltage / inductor current rows are unit vectors in (capacitor order, inductor order)
     order = list(cv) + list(lv)
+    from CircuitCalculator.Network.NodalAnalysis.node_analysis import nodal_analysis_coefficient_matrix
+    try:
+        kap = float(np.linalg.cond(nodal_analysis_coefficient_matrix(net).real))       # sizes the tolerance only
+    except Exception:
+        kap = float('inf')
+    id_tol = max(1e-7, 256 * kap * 2.0 ** -53)
+    if not kap < 1e10:
+        order = []
+        ctx.count('set_aside_state_identity_ill_conditioned')
     for k, sid in enumerate(order):
         row = call(ssm.c_row_voltage if sid in cv else ssm.c_row_current, sid)
         drow = call(ssm.d_row_voltage if sid in cv else ssm.d_row_current, sid)
@@ -116,7 +140,7 @@ def judge(case, ctx, prefix='C10'):
             return
         e = np.zeros(len(order)); e[k] = 1
         sc = max(1.0, float(np.max(np.abs(row))))
-        if np.max(np.abs(np.asarray(row).reshape(-1) - e)) > 1e-7 * sc or np.max(np.abs(np.asarray(drow).reshape(-1))) > 1e-7 * max(1.0, float(np.max(np.abs(D))) if D.size else 1.0):
+        if np.max(np.abs(np.asarray(row).reshape(-1) - e)) > id_tol * sc or np.max(np.abs(np.asarray(drow).reshape(-1))) > id_tol * max(1.0, float(np.max(np.abs(D))) if D.size else 1.0):
             ctx.violation(f'{prefix}/state-identity/{"capacitor" if sid in cv else "inductor"}/{okey}',
                           f'state {k} should be the {"voltage" if sid in cv else "current"} of {sid!r}; C-row {np.asarray(row).reshape(-1)!r}, D-row {np.asarray(drow).reshape(-1)!r}', {'order_class': oc})
             break
